@@ -11,13 +11,18 @@ from yaql import yaql_interface
 from yaql.language import utils as yutils
 
 RULE = ('(1) JSON-like documents of depth <=4 with tuples, sets, frozensets '
-        'and generators substituted, expression $; (2) expressions nesting '
+        'and generators substituted, expression $, through evaluate() with '
+        'and without a context, with input conversion off, through '
+        'yaql.eval, and through yaql.eval while a generator of the document '
+        'itself calls yaql.eval; (2) expressions nesting '
         'every kind of lazy/frozen value the library returns (dict views, '
         'ordering objects, where/select/zip/enumerate iterators, sets, '
         'frozen dicts, tuples, groupBy, memorize, regex results) as list '
         'elements, dict values, dict keys and set members; all under the 4 '
         'combinations of convertTuplesToLists x convertSetsToLists, plus '
-        'YaqlInterface calls; non-trivial = the unfinalised value contains a '
+        'YaqlInterface calls; engines configured from one reused options '
+        'dictionary; contexts composed from a standard and a hand-made '
+        'context; non-trivial = the unfinalised value contains a '
         'non-plain container; distinct = distinct (expression, data, '
         'options)')
 ASSUMPTIONS = [
@@ -219,16 +224,47 @@ def _has_set_list_clash(spec):
     return False
 
 
+def _roundtrip(spec, t2l, s2l, how):
+    """the document through `$` by one of the public ways"""
+    import yaql as _yaql
+    if how == 'raw-input':
+        eng = common.engine({'yaql.convertTuplesToLists': t2l,
+                             'yaql.convertSetsToLists': s2l,
+                             'yaql.convertInputData': False,
+                             'yaql.limitIterators': 1000})
+        return eng('$').evaluate(data=build(spec), context=common.child())
+    if how == 'no-context':
+        return _engine(t2l, s2l)('$').evaluate(data=build(spec))
+    if how == 'yaql.eval':
+        return _yaql.eval('$', build(spec))
+    if how == 'yaql.eval-reentrant':
+        # while the library pulls from a generator of the document, the host
+        # generator evaluates something else through yaql.eval
+        def gen():
+            _yaql.eval('[$, $.other]', {'other': [0]})
+            yield 1
+            yield 2
+        r = _yaql.eval('[$.gen.toList(), $.doc, $.gen2.len()]',
+                       {'doc': build(spec), 'gen': gen(), 'gen2': gen()})
+        if r[0] != [1, 2] or r[2] != 2:
+            raise AssertionError('generator results %r' % (r,))
+        return r[1]
+    return _engine(t2l, s2l)('$').evaluate(
+        data=build(spec), context=common.child())
+
+
 def check_roundtrip(run, case):
     spec = case['doc']
     t2l, s2l = case['opts']
+    how = case.get('how', 'evaluate')
+    if how.startswith('yaql.eval'):
+        t2l, s2l = True, False         # the options of yaql.eval's engine
     try:
-        got = ('ok', _engine(t2l, s2l)('$').evaluate(
-            data=build(spec), context=common.child()))
+        got = ('ok', _roundtrip(spec, t2l, s2l, how))
     except Exception as e:   # noqa
         got = ('exc', e)
     nt = _nontrivial_doc(spec)
-    run.case(case, nt, cls=['roundtrip', 'opts=%s%s' % (
+    run.case(case, nt, cls=['roundtrip', 'how=' + how, 'opts=%s%s' % (
         'T' if t2l else 't', 'S' if s2l else 's')])
     if got[0] != 'ok':
         run.violate('roundtrip-raises', case, '$ on %r raised %s: %s' % (
@@ -625,11 +661,14 @@ def _shard(run, which, n, shard):
                 lambda c: check_copy_family(run, c), n, shard=shard)
         return
     if which == 'roundtrip':
-        cases = st.builds(lambda d, o: {'kind': 'roundtrip', 'doc': d,
-                                        'opts': list(o)},
+        cases = st.builds(lambda d, o, h: {'kind': 'roundtrip', 'doc': d,
+                                           'opts': list(o), 'how': h},
                           st.one_of(documents(3), documents(3),
                                     fresh_generator_docs()),
-                          st.sampled_from(OPTS))
+                          st.sampled_from(OPTS),
+                          st.sampled_from(['evaluate', 'evaluate', 'raw-input',
+                                           'no-context', 'yaql.eval',
+                                           'yaql.eval-reentrant']))
         run.hyp('roundtrip', cases, lambda c: check_roundtrip(run, c), n,
                 shard=shard)
     else:
